@@ -99,7 +99,9 @@ UNBOUNDED_FRAMING_ASSUMPTIONS = ["list.sort(key=k) leaves a permutation of the l
                                  "their defining facts are instantiated by hand at the indices each loop touches; existence of R (the record scan of a finite string ends) is by "
                                  "well-founded recursion on len(D) and is not machine-checked",
                                  "the three lemmas of framing.lemmas are proved by induction: z3 discharges base case and step, the induction schema is applied on paper",
-                                 "buffered segments are non-empty (run() skips empty segments: run.packet_branches) and a chain spans < 2^31 bytes (sort-key obligation only)"]
+                                 "buffered segments are non-empty (run() skips empty segments: run.packet_branches) and a chain spans < 2^31 bytes (sort-key obligation only)",
+                                 "history.unbounded: the callee contract of extract_*_buf is used in a set-level form (see contracts/framing_history.py for its derivation); its per-step "
+                                 "history preconditions are relative to the ghost state; a direction's stream is shorter than 2^31 bytes"]
 
 _p("C06", modules=["tcp_output", "quic_output", "framing", "framing_unbounded"], level="other",
    technique="contract-based deductive verification (pyvc: loop invariants incl. nonlinear split arithmetic, callee contracts) + one bounded stand-in",
@@ -138,17 +140,22 @@ _p("C07", modules=["tcp_output", "quic_output", "framing", "framing_unbounded", 
    trusted_base=["scapy layer constructors", "dpkt readers/writers (timestamp resolution)"], bounded=BOUNDED_FRAMING,
    not_under_contract=["dpkt_dsb.Reader timestamp arithmetic (C12)"])
 
-_p("C05", modules=["framing", "framing_unbounded", "main_run"], level="other",
+_p("C05", modules=["framing", "framing_unbounded", "framing_history", "main_run"], level="other",
    technique="contract-based deductive verification: unbounded loop contract (four invariants, two variants, quantifier-free VCs over spec-function lists) for the framing "
              "functions + unbounded dedupe contract; the capture-order history is a bounded stand-in",
    level_text="UNBOUNDED (any number of buffered segments, any payloads, any number of records): extract_server_buf / extract_client_buf release records iff the sorted buffer is one "
               "contiguous chain modulo 2^32 and its concatenation D ends on a record boundary; then exactly frame(D) is appended, in order, each record being its window of D with "
               "exactly its carrying segments as metadata, and the buffer is emptied; otherwise nothing changes; both framing loops terminate; the real sort key orders every "
               "contiguous chain (< 2^31 bytes) in stream order from any base segment; Session.handle_packet buffers a segment iff its sequence number was not seen in its "
-              "direction. BOUNDED (<= 3 segments, <= 14 stream bytes): get_tls_records delivers, for every cut of a stream into <= 3 segments, every initial sequence number and "
-              "every capture order outside the recorded finding's region, a prefix of frame(S) and all of it when S ends on a boundary.",
-   level_note="level 'other': the per-call framing contract is proved without bound, but the lifting to whole capture histories (which segments sit in the buffer when "
-              "get_tls_records calls extract) is only checked within a bound; one open finding (early segment at an empty buffer) is excluded by region and re-confirmed natively on every run",
+              "direction. UNBOUNDED inductive step of the history (history.unbounded, any number of packets and any interleaving of the two directions): get_tls_records puts each "
+              "segment into its own direction's buffer only, and the records it hands on are always exactly records 0..r-1 of the stream, in order, once, with the direction's flag - "
+              "whenever the buffered windows become gap-free up to a record boundary all records up to it are delivered in that very iteration; a raising record handler is contained. "
+              "BOUNDED (<= 3 segments, <= 14 stream bytes): the composed end-to-end statement - for every cut of a stream into <= 3 segments, every initial sequence number and "
+              "every capture order outside the recorded finding's region, a prefix of frame(S) is delivered and all of it when S ends on a boundary.",
+   level_note="level 'other': the per-call framing contract and the inductive step of the history are proved without bound; the history step uses extract's contract in a SET-level "
+              "form whose derivation from the per-call contract rests on two induction lemmas (machine-checked base and step) plus paper arguments (sort order = offset order and "
+              "contiguity mod 2^32 = exact contiguity below 2^31 bytes), and its per-step preconditions (arriving window disjoint from the buffer, not before the delivered position, "
+              "no early arrival at an empty buffer) follow from 'disjoint segments' by a coverage argument that is not machine-checked; one open finding (early segment at an empty buffer) is excluded by region and re-confirmed natively on every run",
    design_ref="DESIGN.md 4 C05, 8.8",
    explanation="Segmentation independence per extract call (the buffer's concatenation is framed the same however it is cut into segments) is proved for all inputs; retransmission is the "
                "dedupe contract; reordering across calls (the history) is exhaustive for <= 3 segments / <= 14 bytes and silent beyond.",
@@ -239,7 +246,7 @@ _p("C03", modules=["robustness", "demux", "ports", "quic_output", "main_run", "q
    bounded=[{"function": "QuicSession.set_tls_decryptors (key-state invariant)", "bound": "each of the five QUIC-relevant labels at most once per connection (all 32 subsets), one foreign label", "counted_as": "bounded in the multiplicity of labels, unbounded in all values"}],
    not_under_contract=["extract_quic_packet in the QUICK tier (thorough only)"])
 
-_p("C01", modules=["record_protection", "framing", "framing_unbounded", "keys", "cipher_suites", "tcp_output", "robustness", "metadata"], level="other",
+_p("C01", modules=["record_protection", "framing", "framing_unbounded", "framing_history", "keys", "cipher_suites", "tcp_output", "robustness", "metadata"], level="other",
    technique="contract-based deductive verification of every link of the TLS pipeline (per-function contracts; primitives uninterpreted); composition on paper",
    level_text="The pipeline is decomposed into links and each link's obligation is discharged on the real code: framing (records released by one extract call = frame(buffered stream), UNBOUNDED loop contract; capture-order history BOUNDED); ServerHello parsing "
               "(random, suite, compression, extension map incl. zero-length last extensions, version rule; bounded to 2 extensions); suite resolution (C14, exhaustive); key "
@@ -288,7 +295,7 @@ _p("C13", modules=["metadata", "quic_output", "tcp_output", "robustness", "recor
    design_ref="DESIGN.md 4 C13", explanation="Per-record and per-builder obligations discharged for both values of the flag; the whole-run subsequence statement is their composition (paper).",
    assumptions=[], trusted_base=[], not_under_contract=["handle_tls_client_hello / handle_tls_server_hello under the product harness"])
 
-_p("C08", modules=["prefix", "framing", "framing_unbounded", "tcp_output", "quic_output", "main_run", "demux"], level="other",
+_p("C08", modules=["prefix", "framing", "framing_unbounded", "framing_history", "tcp_output", "quic_output", "main_run", "demux"], level="other",
    technique="syntactic frame obligations (append-only accumulators, no look-ahead) + bounded product contract + builder transition relations",
    level_text="The export is a left fold over the capture. Discharged: every accumulating list (packet_buffer, application_traffic, output_buffer, the builders' out lists, "
               "main's session/key lists after the reset) is append-only; each fold loop reads its input only through its loop variable (no look-ahead, no second pass); "
